@@ -87,14 +87,14 @@ example : (RStream.mk [⟨[65], [59, 120, 61, 49], [48, 49, 50, 51, 52, 53, 54, 
 /-- **core equation** (requests): the parser consumes start line and header block of a rendered
     packet in two loop iterations; what remains is the body phase on the payload -/
 theorem C15_parse_pkt (cfg : Cfg) {m u v : Bytes} {url : Url} (H : HDict) (B : Bytes)
-    (hm : SP ∉ m) (hu : SP ∉ u) (hl : splitCRLF (m ++ SP :: (u ++ SP :: v)) = none)
+    (hmne : m ≠ []) (hm : SP ∉ m) (hu : SP ∉ u) (hl : splitCRLF (m ++ SP :: (u ++ SP :: v)) = none)
     (hurl : Px.Url.fromBytes cfg.allowedSchemes u = .ok url) (hH : ∀ e ∈ H, HdrOK e.1 e.2) :
     parse cfg (init .request) (m ++ SP :: (u ++ SP :: v) ++ CRLF ++ (renderHdrs H ++ CRLF ++ B)) =
       match foldHdrs (reqLineParser cfg
           (m ++ SP :: (u ++ SP :: v) ++ CRLF ++ (renderHdrs H ++ CRLF ++ B)).length m v url) H with
       | .error e => .error e
       | .ok q => bodyPhase cfg ((m ++ SP :: (u ++ SP :: v) ++ CRLF ++ (renderHdrs H ++ CRLF ++ B)).length + 6) q B :=
-  parse_request_pkt cfg H B hm hu hl hurl hH _ rfl
+  parse_request_pkt cfg H B hmne hm hu hl hurl hH _ rfl
 
 /-- **what `build_http_request` sends**: the packet is `method SP url SP version CRLF`, the header
     list `reqHeaders` rendered as `name ": " value CRLF`, a blank line, the body; and when the
